@@ -483,11 +483,50 @@ def r2b_outcome_used_as_drawn(ctx, rid="C03.R2b"):
                 ctx.ok(rid, sf.f, dc, f"`{dvar}` is bound by `{U(dc)[:50]}` only and never rewritten", construct=f"outcome {dvar} of {dc.func.attr}")
 
 
+def r9_weights_of_the_state_they_weigh(ctx):
+    """Mixture models: the per-cluster regularity of an individual is averaged with that individual's cluster responsibilities *in the state
+    the regularity was read from* - the responsibilities of the proposed state for the proposed regularity.  Weights computed once before the
+    proposal and re-used after it make D another quantity than the change of the (responsibility-weighted) regularity."""
+    ctx.rule("C03.R9", "cluster responsibilities weighting a regularity are read from the same state as that regularity (no proposal in between)", 2)
+    n = 0
+    for sf in sample_functions(ctx.ix, "C03.R9"):
+        if sf.kind != "individual":
+            continue
+        cfg = sf.cfg
+        puts = [pn for pn, px, how in sf.writes]
+        order = sorted((st.lineno, nid) for nid, st in cfg.stmt.items() if st is not None)
+        for nid, st in cfg.stmt.items():
+            if not (isinstance(st, ast.Assign) and len(st.targets) == 1 and isinstance(st.targets[0], ast.Name)):
+                continue
+            v = st.value
+            # X = (W * X).sum(dim=1)
+            if not (isinstance(v, ast.Call) and isinstance(v.func, ast.Attribute) and v.func.attr == "sum" and isinstance(v.func.value, ast.BinOp) and isinstance(v.func.value.op, ast.Mult)):
+                continue
+            ops = [v.func.value.left, v.func.value.right]
+            tgt = st.targets[0].id
+            w = [o for o in ops if isinstance(o, ast.Name) and o.id != tgt]
+            if len(w) != 1 or not any(isinstance(o, ast.Name) and o.id == tgt for o in ops):
+                continue
+            n += 1
+            wdefs = [(ln, k) for ln, k in order if ln < st.lineno and isinstance(cfg.stmt[k], ast.Assign) and any(isinstance(t, ast.Name) and t.id == w[0].id for t in cfg.stmt[k].targets)]
+            if not wdefs:
+                ctx.unknown("C03.R9", sf.f, st, f"definition of the weights `{w[0].id}` not found", construct=f"weights of {tgt}")
+                continue
+            wd = wdefs[-1][1]
+            between = [p_ for p_ in puts if cfg.reachable(wd, p_) and cfg.reachable(p_, nid) and p_ not in (wd, nid)]
+            ctx.check(not between, "C03.R9", sf.f, st, f"`{w[0].id}` is computed from the state `{tgt}` was read from",
+                      f"`{U(st)[:70]}` weighs the regularity read after the proposal with responsibilities `{w[0].id}` computed before it (`{U(cfg.stmt[wd])[:60]}`): D is not the change of the "
+                      "responsibility-weighted regularity between the current and the proposed state", construct=f"weights of {tgt}")
+    if n < 2:
+        ctx.unknown("C03.R9", ("leaspy.samplers.gibbs", "IndividualGibbsSampler.sample"), None, f"only {n} responsibility-weighted regularity found (2 confirmed)", construct="responsibility weights")
+
+
 def rules(ctx):
     r1_exponent(ctx)
     r1c_no_inplace(ctx)
     r2_draw(ctx)
     r2b_outcome_used_as_drawn(ctx)
+    r9_weights_of_the_state_they_weigh(ctx)
     r3_proposal(ctx)
     r4_terms(ctx)
     r5_individual(ctx)
